@@ -31,9 +31,10 @@ def gen_ops(rng, docs, voc, nd, length):
         t = rng.choice(voc + [9999])
         if r < 0.18:
             lo = hi = None
-            if rng.random() < 0.2:
+            if rng.random() < 0.4:
+                # a small set of windows, one-sided ones included, so that windows sharing a bound recur in a history
                 w = rng.randint(0, 2)
-                lo, hi = 18 * w, 18 * (w + rng.randint(0, 2)) + 17
+                lo, hi = rng.choice([None, 18 * w]), rng.choice([None, 18 * (w + rng.randint(0, 2)) + 17])
             ops.append(["tf", a, t, lo, hi])
         elif r < 0.3 and len(voc) >= 2:
             ops.append(["phrase", a, [rng.choice(voc) for _ in range(rng.randint(2, 3))], None, None])
